@@ -6,11 +6,13 @@ import (
 )
 
 //verif:pkg ./xsync
-// args: waiters k, signals m (0 = one Broadcast), signaller holds L (0/1), cancel one waiter (0/1),
+// args: waiters k, signals m (0 = one Broadcast), signaller holds L (0/1), cancel one waiter (0 no,
+//       1 at an arbitrary moment after it entered Wait, 2 its context has expired before it calls Wait),
 //       a Broadcast (and a Signal) with nobody waiting happened earlier (0/1)
 //verif:case C16 quick VerifCondWakeups 1..2 0..2 0..1 0 0
 //verif:case C16 quick VerifCondWakeups 1..2 0..1 0 1 0
 //verif:case C16 quick VerifCondWakeups 1 0..1 0 0 1
+//verif:case C16 quick VerifCondWakeups 1..2 0..1 0 2 0
 //verif:case C16 thorough VerifCondWakeups 3 0..3 0..1 0 0
 //verif:case C16 thorough VerifCondWakeups 2 2..3 0..1 0..1 0
 //verif:case C16 thorough VerifCondWakeups 3 1 0 1 0
@@ -67,21 +69,29 @@ func VerifCondWakeups(k int, m int, holdL int, cancelOne int, earlier int) {
 		ctxErr
 	)
 	res := make([]int, k)
+	gids := make([]int, k)
+	for i := range gids {
+		gids[i] = -1
+	}
 	ownedAtReturn := make([]bool, k)
 	ctxs := make([]context.Context, k)
 	var cancel0 context.CancelFunc
 	for i := range ctxs {
 		ctxs[i] = context.Background()
 	}
-	if cancelOne == 1 {
+	if cancelOne >= 1 {
 		ctxs[0], cancel0 = context.WithCancel(context.Background())
+	}
+	if cancelOne == 2 {
+		cancel0()
 	}
 	for i := 0; i < k; i++ {
 		i := i
 		go func() {
+			me := vGoroutineID()
+			vAtomic(func() { gids[i] = me })
 			L.Lock()
 			err := c.Wait(ctxs[i])
-			me := vGoroutineID()
 			vAtomic(func() {
 				ownedAtReturn[i] = L.owner == me
 				if err == nil {
@@ -95,7 +105,17 @@ func VerifCondWakeups(k int, m int, holdL int, cancelOne int, earlier int) {
 			}
 		}()
 	}
-	vAwait(func() bool { return L.entered() >= k })
+	vAwait(func() bool {
+		// every waiter has released the lock inside Wait (a waiter whose context had expired and
+		// that came back with the error without ever releasing the lock is caught below)
+		for i := 0; i < k; i++ {
+			in := gids[i] >= 0 && L.released[gids[i]]
+			if !in && !(i == 0 && cancelOne == 2 && res[0] == ctxErr) {
+				return false
+			}
+		}
+		return true
+	})
 	if cancelOne == 1 {
 		go func() { cancel0() }() // cancellation at an arbitrary point relative to the signals
 	}
